@@ -200,3 +200,34 @@ def http_exchange(env, srv, request_bytes, head=False):
     msgs = split_responses(raw, head_requests=(0,) if head else ())
     v, code, reason, headers, body, complete = msgs[0]
     return code, headers, body, closed
+
+
+def header_values(raw, name):
+    """Values of the header `name` in the first response head of `raw`, stripped of optional
+    whitespace (SP / HTAB) only.  harness.httpsim.split_responses uses str.strip(), which also
+    removes NBSP / NEL at the edges - bytes a client would keep (seen as a false alarm in C25:
+    samesite="//\xa0" looked truncated)."""
+    head = raw.split(b"\r\n\r\n", 1)[0].decode("latin1")
+    out = []
+    for ln in head.split("\r\n")[1:]:
+        n, sep, v = ln.partition(":")
+        if sep and n.strip(" \t").lower() == name.lower():
+            out.append(v.strip(" \t"))
+    return out
+
+
+def http_exchange_raw(env, srv, request_bytes):
+    """Like http_exchange but also returns the raw bytes the server wrote."""
+    from .httpsim import ServerConn, split_responses
+    c = ServerConn(env, srv)
+    c.send(request_bytes)
+    env.settle()
+    raw = c.received()
+    closed = c.closed()
+    if not closed:
+        c.peer_close()
+        env.settle()
+    if not raw:
+        return None, [], b"", closed, raw
+    v, code, reason, headers, body, complete = split_responses(raw)[0]
+    return code, headers, body, closed, raw
